@@ -3,6 +3,8 @@ package main
 import (
 	"encoding/binary"
 	"fmt"
+	"hash/fnv"
+	mrand "math/rand"
 	"net"
 	"strconv"
 	"strings"
@@ -11,23 +13,28 @@ import (
 	"github.com/v-byte-cpu/sx/command"
 	"github.com/v-byte-cpu/sx/pkg/scan"
 	"github.com/v-byte-cpu/sx/pkg/scan/arp"
-	"github.com/v-byte-cpu/sx/pkg/scan/icmp"
-	"github.com/v-byte-cpu/sx/pkg/scan/udp"
 	"sxverif/harness/internal/hx"
 )
 
 func init() {
 	components["fill"] = fillComponent
 	replayers["fill"] = func(f []string) string {
-		out, _ := runFill(f[1], f[2], f[3])
+		out, _, _ := runFill(f[1], f[2], f[3])
 		return out
 	}
 }
 
 var tcpFlagBits = map[string]int{"fin": 1, "syn": 2, "rst": 4, "psh": 8, "ack": 16, "urg": 32, "ece": 64, "cwr": 128, "ns": 256}
 
-// opts: kind-specific "k=v;k=v"; req: "src,dst,smac,dmac,port" (hex)
-func runFill(kind, opts, req string) (observed string, rnd string) {
+// opts: kind-specific "k=v;k=v"; req: "src,dst,smac,dmac,port" (hex).
+// The global math/rand source (the one the fillers draw from) is seeded from the case text, so a
+// replay of a recorded case sees the same draws.  rnd = the three random header fields read back from
+// the frame; aux = the payload read back when the filler chose it itself (icmp without --payload), else "-".
+func runFill(kind, opts, req string) (observed string, rnd string, aux string) {
+	aux = "-"
+	h := fnv.New64a()
+	h.Write([]byte(kind + "|" + opts + "|" + req))
+	seed := int64(h.Sum64() >> 1)
 	kv := map[string]string{}
 	for _, p := range strings.Split(opts, ";") {
 		if i := strings.IndexByte(p, '='); i > 0 {
@@ -35,6 +42,11 @@ func runFill(kind, opts, req string) (observed string, rnd string) {
 		}
 	}
 	atoi := func(k string) int { v, _ := strconv.Atoi(kv[k]); return v }
+	// "seed=S;skip=K": the K+1-th frame the filler produces after Seed(S) (extreme-draw search)
+	if _, ok := kv["seed"]; ok {
+		seed = int64(atoi("seed"))
+	}
+	mrand.Seed(seed)
 	rf := strings.Split(req, ",")
 	port, _ := strconv.Atoi(rf[4])
 	r := &scan.Request{SrcIP: net.IP(hx.UnHex(rf[0])), DstIP: net.IP(hx.UnHex(rf[1])), SrcMAC: hx.UnHex(rf[2]), DstMAC: hx.UnHex(rf[3]), DstPort: uint16(port)}
@@ -49,18 +61,15 @@ func runFill(kind, opts, req string) (observed string, rnd string) {
 			}
 		}
 		filler = command.VerifTCPFlagFiller(names, vpn)
-	case "udp":
-		o := []udp.PacketFillerOption{udp.WithTTL(uint8(atoi("ttl"))), udp.WithIPProtocol(uint8(atoi("proto"))), udp.WithIPFlags(uint8(atoi("ipflags"))),
-			udp.WithIPTotalLength(uint16(atoi("iplen"))), udp.WithVPNmode(vpn)}
-		if kv["payload"] != "-" {
-			o = append(o, udp.WithPayload(hx.UnHex(kv["payload"])))
+	case "udp", "icmp":
+		// through the commands' own option wiring (getUDPOptions / getICMPOptions)
+		v := &command.VerifOpts{VPNMode: vpn, TTL: uint8(atoi("ttl")), IPFlags: uint8(atoi("ipflags")), IPProto: uint8(atoi("proto")),
+			IPLen: uint16(atoi("iplen")), ICMPType: uint8(atoi("type")), ICMPCode: uint8(atoi("code")), Payload: hx.UnHex(kv["payload"])}
+		if kind == "udp" {
+			filler = command.VerifUDPFiller(v)
+		} else {
+			filler = command.VerifICMPFiller(v)
 		}
-		filler = udp.NewPacketFiller(o...)
-	case "icmp":
-		o := []icmp.PacketFillerOption{icmp.WithTTL(uint8(atoi("ttl"))), icmp.WithIPProtocol(uint8(atoi("proto"))), icmp.WithIPFlags(uint8(atoi("ipflags"))),
-			icmp.WithIPTotalLength(uint16(atoi("iplen"))), icmp.WithType(uint8(atoi("type"))), icmp.WithCode(uint8(atoi("code"))), icmp.WithVPNmode(vpn),
-			icmp.WithPayload(hx.UnHex(kv["payload"]))}
-		filler = icmp.NewPacketFiller(o...)
 	case "arp":
 		filler = arp.NewPacketFiller()
 	}
@@ -72,12 +81,16 @@ func runFill(kind, opts, req string) (observed string, rnd string) {
 	}
 	buf.Clear()
 	var err error
+	for k := atoi("skip"); k > 0; k-- {
+		hx.Recover(func() { filler.Fill(buf, r) })
+		buf.Clear()
+	}
 	panicked, _ := hx.Recover(func() { err = filler.Fill(buf, r) })
 	if panicked {
-		return "PANIC", "0,0,0"
+		return "PANIC", "0,0,0", aux
 	}
 	if err != nil {
-		return "ERR", "0,0,0"
+		return "ERR", "0,0,0", aux
 	}
 	b := buf.Bytes()
 	off := 14
@@ -86,29 +99,37 @@ func runFill(kind, opts, req string) (observed string, rnd string) {
 	}
 	id, p1, seq := 0, 0, uint32(0)
 	if kind != "arp" && len(b) >= off+28 {
-		id = int(binary.BigEndian.Uint16(b[off+4:])) - 1
+		// the draw behind a field, modulo the field width (an id field of 0 reads as draw 65535)
+		id = (int(binary.BigEndian.Uint16(b[off+4:])) - 1) & 0xffff
 		switch kind {
 		case "tcp":
-			p1 = int(binary.BigEndian.Uint16(b[off+20:])) - 32768
+			p1 = (int(binary.BigEndian.Uint16(b[off+20:])) - 32768) & 0xffff
 			seq = binary.BigEndian.Uint32(b[off+24:])
 		case "udp":
-			p1 = int(binary.BigEndian.Uint16(b[off+20:])) - 32768
+			p1 = (int(binary.BigEndian.Uint16(b[off+20:])) - 32768) & 0xffff
 		case "icmp":
-			p1 = int(binary.BigEndian.Uint16(b[off+24:])) - 1
+			p1 = (int(binary.BigEndian.Uint16(b[off+24:])) - 1) & 0xffff
 		}
 	}
-	return "OK " + hx.Hex(b), fmt.Sprintf("%d,%d,%d", id, p1, seq)
+	if kind == "icmp" && len(hx.UnHex(kv["payload"])) == 0 && len(b) >= off+28 {
+		// 48 random bytes by default; Ethernet padding cannot be confused with it (28+48 > 46)
+		aux = "x" + hx.Hex(b[off+28:])
+	}
+	return "OK " + hx.Hex(b), fmt.Sprintf("%d,%d,%d", id, p1, seq), aux
 }
 
 func fillComponent(r *hx.Run) {
-	r.Rule = "case = (filler kind, options, request) through the real PacketFiller.Fill into a deliberately dirty buffer; the three random fields are read back from the frame and given to the model, every other byte must match; exhaustive over the 2^9 TCP flag sets x 2 link modes, random TTL / IP flags / protocol / --iplen / type / code, payload lengths 0..1500 incl. odd, requests with 4-byte, 16-byte IPv4-mapped, nil and IPv6 addresses and MACs of wrong length; non-trivial class = (kind, link mode, override present, payload parity, request shape, outcome)"
+	r.Rule = "case = (filler kind, options, request) through the real PacketFiller.Fill into a deliberately dirty buffer, the udp/icmp fillers built by the commands' own option wiring, the tcp filler from flag names through tcpPacketFlagOptions; the random header fields (and the default ICMP payload) are read back from the frame and given to the model, every other byte must match; exhaustive over the 2^9 TCP flag sets x 2 link modes; a corner grid {udp,icmp} x link mode x payload length {0,1,2,3,17,18,19,46,47,48,1471,1472,1473,1500} x {TTL, IP flags, protocol, --iplen, type, code extremes}; payloads of 65507 (IPv4 maximum) and 65508 bytes; random TTL / IP flags / protocol / --iplen / type / code, payload lengths 0..1500 incl. odd; requests with 4-byte, 16-byte IPv4-mapped, nil and IPv6 addresses and MACs of wrong length; non-trivial class = (kind, link mode, override present, payload parity/size class, request shape, outcome)"
 	rng := r.Rng
 	ip4 := func() []byte { return []byte{byte(1 + rng.Intn(223)), byte(rng.Intn(256)), byte(rng.Intn(256)), byte(rng.Intn(256))} }
 	mac := func() []byte { b := make([]byte, 6); rng.Read(b); return b }
+	plain := func() string {
+		return fmt.Sprintf("%s,%s,%s,%s,%d", hx.Hex(ip4()), hx.Hex(ip4()), hx.Hex(mac()), hx.Hex(mac()), rng.Intn(65536))
+	}
 	req := func() (string, string) {
 		src, dst, sm, dm := ip4(), ip4(), mac(), mac()
 		shape := "plain"
-		switch rng.Intn(14) {
+		switch rng.Intn(16) {
 		case 0:
 			dst = net.IP(dst).To16()
 			shape = "dst16"
@@ -130,27 +151,145 @@ func fillComponent(r *hx.Run) {
 		case 6:
 			dst = nil
 			shape = "dst-nil"
+		case 7:
+			sm, dm = nil, nil
+			shape = "macs-nil"
 		}
-		return fmt.Sprintf("%s,%s,%s,%s,%d", hx.Hex(src), hx.Hex(dst), hx.Hex(sm), hx.Hex(dm), rng.Intn(65536)), shape
+		port := rng.Intn(65536)
+		switch rng.Intn(12) {
+		case 0:
+			port = 0
+		case 1:
+			port = 65535
+		}
+		return fmt.Sprintf("%s,%s,%s,%s,%d", hx.Hex(src), hx.Hex(dst), hx.Hex(sm), hx.Hex(dm), port), shape
 	}
 	emit := func(kind, opts, rq, shape, extra string) {
-		obs, rnd := runFill(kind, opts, rq)
+		obs, rnd, aux := runFill(kind, opts, rq)
 		out := strings.SplitN(obs, " ", 2)[0]
 		r.Count(kind + "/" + out)
-		r.Case(kind+"/"+extra+"/"+shape+"/"+out, "fill", kind, opts, rq, rnd, obs)
+		r.Case(kind+"/"+extra+"/"+shape+"/"+out, "fill", kind, opts, rq, rnd, aux, obs)
+	}
+	// 1. TCP: all 2^9 flag sets x 2 link modes on well-formed requests, in both tiers; then the same
+	// sets again (a third of them in the quick tier) on requests of every shape, malformed ones included
+	reps := 1
+	if r.Tier == "thorough" {
+		reps = 10
 	}
 	for flags := 0; flags < 512; flags++ {
 		for vpn := 0; vpn < 2; vpn++ {
-			if r.Tier != "thorough" && (flags*2+vpn)%3 != 0 && flags > 40 {
-				continue
-			}
-			rq, shape := req()
-			emit("tcp", fmt.Sprintf("vpn=%d;flags=%d", vpn, flags), rq, shape, fmt.Sprintf("vpn%d", vpn))
+			emit("tcp", fmt.Sprintf("vpn=%d;flags=%d", vpn, flags), plain(), "plain", fmt.Sprintf("vpn%d/all", vpn))
 		}
 	}
-	n := 500
+	for rep := 0; rep < reps; rep++ {
+		for flags := 0; flags < 512; flags++ {
+			for vpn := 0; vpn < 2; vpn++ {
+				if r.Tier != "thorough" && (flags+vpn)%3 != 0 {
+					continue
+				}
+				rq, shape := req()
+				emit("tcp", fmt.Sprintf("vpn=%d;flags=%d", vpn, flags), rq, shape, fmt.Sprintf("vpn%d", vpn))
+			}
+		}
+	}
+	sizeClass := func(plen int) string {
+		c := "even"
+		if plen%2 == 1 {
+			c = "odd"
+		}
+		switch {
+		case plen == 0:
+			c = "empty"
+		case plen <= 18:
+			c += "-padded" // Ethernet frame below 60 bytes
+		case plen > 1472:
+			c += "-overMTU"
+		}
+		return c
+	}
+	payloadOf := func(plen int) []byte {
+		p := make([]byte, plen)
+		rng.Read(p)
+		switch rng.Intn(6) {
+		case 0:
+			for i := range p {
+				p[i] = 0xff
+			}
+		case 1:
+			for i := range p {
+				p[i] = 0
+			}
+		}
+		return p
+	}
+	// 2. corner grid
+	type corner struct{ ttl, proto, ipflags, iplen, typ, code int }
+	corners := []corner{{64, -1, 2, 0, 8, 0}, {0, 0, 0, 0, 0, 0}, {255, 255, 7, 0, 255, 255}, {1, -1, 4, 1, 13, 0}, {128, 157, 1, 65535, 8, 255}, {255, -1, 2, 20, 17, 0}, {64, 6, 5, 28, 3, 3}}
+	lens := []int{0, 1, 2, 3, 17, 18, 19, 46, 47, 48, 1471, 1472, 1473, 1500}
+	for _, kind := range []string{"udp", "icmp"} {
+		for vpn := 0; vpn < 2; vpn++ {
+			for _, plen := range lens {
+				for ci, c := range corners {
+					if r.Tier != "thorough" && (plen+ci+vpn)%2 == 1 && ci > 1 {
+						continue
+					}
+					proto := c.proto
+					if proto < 0 {
+						proto = map[string]int{"udp": 17, "icmp": 1}[kind]
+					}
+					ov := "noiplen"
+					if c.iplen != 0 {
+						ov = "iplen"
+					}
+					opts := fmt.Sprintf("vpn=%d;ttl=%d;proto=%d;ipflags=%d;iplen=%d;payload=%s", vpn, c.ttl, proto, c.ipflags, c.iplen, hx.Hex(payloadOf(plen)))
+					if kind == "icmp" {
+						opts += fmt.Sprintf(";type=%d;code=%d", c.typ, c.code)
+					}
+					emit(kind, opts, plain(), "plain", fmt.Sprintf("vpn%d/%s/%s/corner%d", vpn, ov, sizeClass(plen), ci))
+				}
+			}
+		}
+	}
+	// 3. the IPv4 maximum and one byte more (outside the hypotheses: byte-exact correspondence only)
+	for _, kind := range []string{"udp", "icmp"} {
+		for vpn := 0; vpn < 2; vpn++ {
+			for _, plen := range []int{65507, 65508} {
+				if r.Tier != "thorough" && plen == 65508 && vpn == 0 {
+					continue
+				}
+				opts := fmt.Sprintf("vpn=%d;ttl=64;proto=17;ipflags=2;iplen=0;payload=%s", vpn, hx.Hex(payloadOf(plen)))
+				if kind == "icmp" {
+					opts += ";type=8;code=0"
+				}
+				emit(kind, opts, plain(), "plain", fmt.Sprintf("vpn%d/noiplen/len%d", vpn, plen))
+			}
+		}
+	}
+	// 4. extreme draws: one seeded stream of frames per filler, searched for the first frame whose IP id /
+	// source port / ICMP id is at an end of its advertised range -- or outside it
+	budget := 1500000
 	if r.Tier == "thorough" {
-		n = 8000
+		budget = 8000000
+	}
+	for _, kind := range []string{"tcp", "udp", "icmp"} {
+		base := map[string]string{"tcp": "vpn=1;flags=2", "udp": "vpn=1;ttl=64;proto=17;ipflags=2;iplen=0;payload=-",
+			"icmp": "vpn=1;ttl=64;proto=1;ipflags=2;iplen=0;payload=0102;type=8;code=0"}[kind]
+		rq := plain()
+		seed := rng.Intn(1 << 30)
+		found := extremeDraws(kind, base, rq, seed, budget)
+		var classes []string
+		for class := range found {
+			classes = append(classes, class)
+		}
+		sortStrings(classes)
+		for _, class := range classes {
+			emit(kind, fmt.Sprintf("%s;seed=%d;skip=%d", base, seed, found[class]), rq, "plain", "extreme/"+class)
+		}
+	}
+	// 5. random
+	n := 600
+	if r.Tier == "thorough" {
+		n = 40000
 	}
 	for i := 0; i < n; i++ {
 		vpn := rng.Intn(2)
@@ -159,31 +298,108 @@ func fillComponent(r *hx.Run) {
 		case 0:
 			plen = 0
 		case 1:
-			plen = 1400 + rng.Intn(100)
+			plen = 1400 + rng.Intn(110)
 		case 2:
 			plen = 1 + 2*rng.Intn(30)
 		}
-		payload := make([]byte, plen)
-		rng.Read(payload)
+		payload := payloadOf(plen)
 		iplen := 0
 		ov := "noiplen"
 		if rng.Intn(4) == 0 {
 			iplen = 1 + rng.Intn(65535)
 			ov = "iplen"
 		}
-		par := "even"
-		if plen%2 == 1 {
-			par = "odd"
-		}
 		rq, shape := req()
 		common := fmt.Sprintf("vpn=%d;ttl=%d;proto=%d;ipflags=%d;iplen=%d;payload=%s", vpn, rng.Intn(256), rng.Intn(256), rng.Intn(8), iplen, hx.Hex(payload))
 		switch rng.Intn(5) {
 		case 0, 1:
-			emit("udp", common, rq, shape, fmt.Sprintf("vpn%d/%s/%s", vpn, ov, par))
+			emit("udp", common, rq, shape, fmt.Sprintf("vpn%d/%s/%s", vpn, ov, sizeClass(plen)))
 		case 2, 3:
-			emit("icmp", common+fmt.Sprintf(";type=%d;code=%d", rng.Intn(256), rng.Intn(256)), rq, shape, fmt.Sprintf("vpn%d/%s/%s", vpn, ov, par))
+			emit("icmp", common+fmt.Sprintf(";type=%d;code=%d", rng.Intn(256), rng.Intn(256)), rq, shape, fmt.Sprintf("vpn%d/%s/%s", vpn, ov, sizeClass(plen)))
 		default:
 			emit("arp", "-", rq, shape, "eth")
 		}
 	}
+}
+
+// extremeDraws runs the real filler `budget` times on one seeded math/rand stream and returns, per class
+// of extreme header value, the index of the first frame showing it.
+func extremeDraws(kind, opts, req string, seed, budget int) map[string]int {
+	found := map[string]int{}
+	kv := map[string]string{}
+	for _, p := range strings.Split(opts, ";") {
+		if i := strings.IndexByte(p, '='); i > 0 {
+			kv[p[:i]] = p[i+1:]
+		}
+	}
+	atoi := func(k string) int { v, _ := strconv.Atoi(kv[k]); return v }
+	rf := strings.Split(req, ",")
+	port, _ := strconv.Atoi(rf[4])
+	r := &scan.Request{SrcIP: net.IP(hx.UnHex(rf[0])), DstIP: net.IP(hx.UnHex(rf[1])), SrcMAC: hx.UnHex(rf[2]), DstMAC: hx.UnHex(rf[3]), DstPort: uint16(port)}
+	mrand.Seed(int64(seed))
+	var filler scan.PacketFiller
+	switch kind {
+	case "tcp":
+		var names []string
+		for n, b := range tcpFlagBits {
+			if atoi("flags")&b != 0 {
+				names = append(names, n)
+			}
+		}
+		filler = command.VerifTCPFlagFiller(names, true)
+	default:
+		v := &command.VerifOpts{VPNMode: true, TTL: uint8(atoi("ttl")), IPFlags: uint8(atoi("ipflags")), IPProto: uint8(atoi("proto")),
+			IPLen: uint16(atoi("iplen")), ICMPType: uint8(atoi("type")), ICMPCode: uint8(atoi("code")), Payload: hx.UnHex(kv["payload"])}
+		if kind == "udp" {
+			filler = command.VerifUDPFiller(v)
+		} else {
+			filler = command.VerifICMPFiller(v)
+		}
+	}
+	buf := gopacket.NewSerializeBuffer()
+	note := func(class string, k int) {
+		if _, ok := found[class]; !ok {
+			found[class] = k
+		}
+	}
+	for k := 0; k < budget; k++ {
+		buf.Clear()
+		if err := filler.Fill(buf, r); err != nil {
+			break
+		}
+		b := buf.Bytes()
+		if len(b) < 28 {
+			break
+		}
+		switch id := binary.BigEndian.Uint16(b[4:]); id {
+		case 0:
+			note("ipid-zero", k)
+		case 1:
+			note("ipid-min", k)
+		case 65535:
+			note("ipid-max", k)
+		}
+		if kind == "icmp" {
+			switch id := binary.BigEndian.Uint16(b[24:]); id {
+			case 0:
+				note("icmpid-zero", k)
+			case 1:
+				note("icmpid-min", k)
+			case 65535:
+				note("icmpid-max", k)
+			}
+			continue
+		}
+		switch sp := binary.BigEndian.Uint16(b[20:]); {
+		case sp < 32768:
+			note("sport-below", k)
+		case sp == 32768:
+			note("sport-min", k)
+		case sp == 60999:
+			note("sport-max", k)
+		case sp > 60999:
+			note("sport-above", k)
+		}
+	}
+	return found
 }
